@@ -127,3 +127,44 @@ PROPS["C33"] = {
     "note": "The compactor's periodic cleanup goroutine of cmd/thanos is not modelled as a concurrent actor; cleanup runs at the end of each iteration as in compactMainFn.",
 }
 
+
+PROPS["C31"] = {
+    "world": "BL",
+    "level": "exploration",
+    "technique": "deterministic simulation: generated block sets through the real fetcher + duplicate filter + syncer GC on a simulated bucket at several concurrency levels; relational oracle",
+    "design_ref": "DESIGN.md §6 C31",
+    "quick": {"runs": 4000, "seconds": 45},
+    "thorough": {"runs": 200000, "seconds": 600},
+    "rule": "one evaluation = one generated set of 2-10 block metas (1-3 compaction groups by external labels and resolution; source lists shaped as raw blocks, "
+            "contiguous compaction results, arbitrary subsets and copies of another block's sources) fetched three times through the real BaseFetcher/MetaFetcher "
+            "+ DefaultDeduplicateFilter + Syncer at concurrency 1, 2-8 and 1-8 (meta loads are bucket operations released in seeded order), followed by "
+            "Syncer.GarbageCollect. distinct = distinct event-log hash; every run is non-trivial (the filter runs on at least two blocks).",
+    "components": {"real": ["block.BaseFetcher/MetaFetcher, ConcurrentLister, DefaultDeduplicateFilter, IgnoreDeletionMarkFilter", "compact.Syncer (SyncMetas, GarbageCollect)", "block.MarkForDeletion"],
+                   "stub": ["object storage (simbucket)", "clock (fake)", "block contents (meta.json only; the filter reads nothing else)"]},
+    "assumptions": ["the hand-off between the filter's own worker goroutines is not a scheduling point of the simulator (no seam inside the filter); it is exercised by "
+                    "running the same input at different concurrency levels and comparing outcomes"],
+    "text": "Seeded sampling of block sets, fetch orders and concurrency levels with a relational oracle (covered-by-kept, sources preserved, order/concurrency independence, GC marks only hidden blocks).",
+    "note": "Interleavings inside the filter's worker pool are left to the Go runtime.",
+}
+PROPS["C32"] = {
+    "world": "BL",
+    "level": "exploration",
+    "technique": "deterministic simulation on a fake clock at millisecond resolution: real compactor iteration (cleaner, retention, partial-upload cleanup) over blocks whose ages sit around the boundaries; operation-log oracle",
+    "design_ref": "DESIGN.md §6 C32",
+    "quick": {"runs": 3000, "seconds": 45},
+    "thorough": {"runs": 150000, "seconds": 600},
+    "rule": "one evaluation = 1-6 blocks (resolution raw/5m/1h; newest sample at retention +- {0,1ms,400ms,700ms,999ms,1.5s,2s,3s,1h}; a third carry a deletion mark aged "
+            "delete-delay +- the same offsets; a third are partial uploads last touched 48h +- the offsets, with old or young ULIDs), retention per resolution drawn from "
+            "{off,1h,3h,36h}, delete delay from {cmd/thanos default, 2h, 90s}; 1-3 compactor iterations 0.5s/2s/30m apart, then late iterations far beyond every delay. "
+            "Oracle on every bucket mutation of the compactor: a deletion mark is written only when now > newest sample + retention (MaxTime-1ms is the newest sample); "
+            "files of a marked block are deleted only when now - recorded mark time > delete delay; files of a partial upload only when untouched for more than 48h; "
+            "nothing else is ever deleted. distinct = distinct event-log hash.",
+    "components": {"real": ["compact.BucketCompactor.Compact (BlocksCleaner.DeleteMarkedBlocks, Syncer), ApplyRetentionPolicyByResolution, BestEffortCleanAbortedPartialUploads",
+                            "block.MarkForDeletion/Delete, IgnoreDeletionMarkFilter, fetcher"],
+                   "stub": ["object storage (simbucket, LastModified from the fake clock)", "clock (fake; every released bucket operation takes 1 ms)",
+                            "blocks are synthetic and each is its own compaction group, so no compaction happens"]},
+    "assumptions": ["deletion-mark age is measured from the time recorded in the mark (whole seconds)", "a block's newest sample is MaxTime-1ms",
+                    "no bucket faults (the property does not quantify over them)"],
+    "text": "Seeded sampling of boundary-centred ages, delays and iteration histories with an operation-log oracle.",
+    "note": "Liveness (expired data is eventually removed) is measured by probes only; it is not part of the property.",
+}
